@@ -90,7 +90,7 @@ func genRules(t *rapid.T, max int) []cfggen.Command {
 	return out
 }
 
-var c11SvcNames = []string{"shell", "ppp", "junos-exec", "ip", "sA", "scope"}
+var c11SvcNames = []string{"shell", "ppp", "junos-exec", "ip", "sA", "scope", "cisco-av-pair", "shell:priv-lvl=15"}
 
 func genServices(t *rapid.T, max int) []cfggen.Service {
 	n := rapid.IntRange(0, max).Draw(t, "nservices")
@@ -112,11 +112,13 @@ func genServices(t *rapid.T, max int) []cfggen.Service {
 			}
 			s.SetValues = append(s.SetValues, v)
 		}
-		switch rapid.IntRange(0, 5).Draw(t, "match_kind") {
+		switch rapid.IntRange(0, 6).Draw(t, "match_kind") {
 		case 0:
 			s.Match = []cfggen.Value{{Name: "protocol", Values: []string{"ip"}}}
 		case 1:
 			s.Match = []cfggen.Value{{Name: "scope", Values: []string{rapid.SampledFrom([]string{cfggen.ScopeA, cfggen.ScopeB}).Draw(t, "match_scope")}}}
+		case 3:
+			s.Match = []cfggen.Value{{Name: "cisco-av-pair", Values: []string{"shell:priv-lvl=15"}}}
 		case 2:
 			s.Match = []cfggen.Value{{Name: "protocol", Values: []string{"ip", rapid.SampledFrom([]string{"ip", "lcp"}).Draw(t, "second")}}, {Name: "service", Values: []string{"ppp"}}}
 		}
@@ -143,7 +145,8 @@ func genC11Request(t *rapid.T, users []string) c11Req {
 		var cargs []string
 		n := rapid.IntRange(0, 4).Draw(t, "ncmdargs")
 		for i := 0; i < n; i++ {
-			cargs = append(cargs, "cmd-arg="+rapid.SampledFrom(append([]string{";", "reload", "|", "a b", "", "terminal;reload", "<cr>"}, c11Words...)).Draw(t, "cmd_arg_val"))
+			sep := rapid.SampledFrom([]string{"=", "=", "=", "=", "*"}).Draw(t, "cmd_arg_sep")
+			cargs = append(cargs, "cmd-arg"+sep+rapid.SampledFrom(append([]string{";", "reload", "|", "a b", "", "terminal;reload", "<cr>", "detail=all", "a*b", "x=y*z"}, c11Words...)).Draw(t, "cmd_arg_val"))
 		}
 		switch rapid.IntRange(0, 3).Draw(t, "line_end") {
 		case 0:
@@ -176,7 +179,7 @@ func genC11Request(t *rapid.T, users []string) c11Req {
 	default: // session authorization
 		n := rapid.IntRange(0, 4).Draw(t, "nsessargs")
 		for i := 0; i < n; i++ {
-			r.Args = append(r.Args, pad(rapid.SampledFrom([]string{"service=shell", "service=ppp", "service*ppp", "protocol=ip", "protocol*ip", "protocol=lcp", "cmd=", "cmd*", "service=junos-exec", "shell*", "ip=1", "service=shell", "x=shell", "scope=sB"}).Draw(t, "sess_arg")))
+			r.Args = append(r.Args, pad(rapid.SampledFrom([]string{"service=shell", "service=ppp", "service*ppp", "protocol=ip", "protocol*ip", "protocol=lcp", "cmd=", "cmd*", "service=junos-exec", "shell*", "ip=1", "service=shell", "x=shell", "scope=sB", "cisco-av-pair*shell:priv-lvl=15", "cisco-av-pair=shell:priv-lvl=15", "cisco-av-pair*x"}).Draw(t, "sess_arg")))
 		}
 	}
 	return r
